@@ -573,10 +573,12 @@ class Dataset:
         if not isinstance(other, Dataset):
             return NotImplemented
 
-        self_str_rankings: List[str] = [str(ranking).strip().replace(" ", "") for ranking in self.rankings]
-        other_str_rankings: List[str] = [str(ranking).strip().replace(" ", "") for ranking in other.rankings]
+        # a ranking is identified by its sequence of buckets taken as sets: the textual form depends on the
+        # iteration order of the sets, and conflates names that only differ by blanks
+        self_rankings = [tuple(frozenset(bucket) for bucket in ranking) for ranking in self.rankings]
+        other_rankings = [tuple(frozenset(bucket) for bucket in ranking) for ranking in other.rankings]
 
-        return Counter(self_str_rankings) == Counter(other_str_rankings)
+        return Counter(self_rankings) == Counter(other_rankings)
 
 
 class DatasetSelector:
